@@ -24,6 +24,7 @@ import (
 
 	"go.opentelemetry.io/otel"
 	sdktrace "go.opentelemetry.io/otel/sdk/trace"
+	"go.opentelemetry.io/otel/sdk/trace/tracetest"
 	"go.opentelemetry.io/otel/trace"
 
 	"verif/harness/vgen"
@@ -352,14 +353,55 @@ func newRig(c cfg, batchTimeout, exportTimeout time.Duration) *rig {
 	return &rig{rec: rec, g: g, bsp: bsp, tp: tp, tracer: tp.Tracer("c01")}
 }
 
-// end starts and ends span id (sampled or record-only), logging Call before End is
-// issued and Ret after it returned.
-func (r *rig) end(id int, smp bool) {
+// Flag bytes beyond the plain 0x01 / 0x00: "sampled" is the sampled BIT of the trace flags,
+// whatever the other bits are (a child of a remote parent that carried W3C flags 0x03 keeps
+// the parent's other bits).
+var extraBits = []byte{0x00, 0x02, 0x80, 0xfe}
+
+// flagsFor returns the flag byte a span gets for (sampled, variant): 0x01/0x03/0x81/0xff when
+// sampled, 0x00/0x02/0x80/0xfe when not.
+func flagsFor(smp bool, variant int) trace.TraceFlags {
+	b := extraBits[variant%len(extraBits)]
+	if smp {
+		b |= 0x01
+	}
+	return trace.TraceFlags(b)
+}
+
+// end ends span id, logging Call before End/OnEnd is issued and Ret after it returned.
+// variant chooses the flag byte (see flagsFor) and the path: variants 0..3 go through the
+// TracerProvider (variant 0: a root span; 1..3: the child of a remote parent carrying the other
+// flag bits, which the SDK copies), variants 4..7 hand a tracetest snapshot with that flag
+// byte directly to OnEnd.
+func (r *rig) end(id int, smp bool, variant int) {
 	name := "s" + strconv.Itoa(id)
 	if !smp {
 		name = "u" + strconv.Itoa(id)
 	}
-	_, sp := r.tracer.Start(context.Background(), name)
+	variant %= 8
+	fl := flagsFor(smp, variant)
+	tid := trace.TraceID{0xc0, 0x01, byte(id >> 8), byte(id), 1}
+	sid := trace.SpanID{0xc0, 0x01, byte(id >> 8), byte(id), 2}
+	if variant >= 4 {
+		sc := trace.NewSpanContext(trace.SpanContextConfig{TraceID: tid, SpanID: sid, TraceFlags: fl})
+		snap := tracetest.SpanStub{Name: name, SpanContext: sc}.Snapshot()
+		t := r.rec.newCall()
+		r.rec.add(event{kind: evCall, t: t, op: opEnd, id: id, smp: smp})
+		r.bsp.OnEnd(snap)
+		r.rec.add(event{kind: evRet, t: t, op: opEnd, id: id, smp: smp, ret: rNil})
+		return
+	}
+	ctx := context.Background()
+	if variant > 0 {
+		// the sampler (by name) sets or clears the sampled bit; the other bits come from the parent
+		parent := trace.NewSpanContext(trace.SpanContextConfig{TraceID: tid, SpanID: sid,
+			TraceFlags: trace.TraceFlags(extraBits[variant]), Remote: true})
+		ctx = trace.ContextWithRemoteSpanContext(ctx, parent)
+	}
+	_, sp := r.tracer.Start(ctx, name)
+	if got := sp.SpanContext().TraceFlags(); got != fl {
+		panic(fmt.Sprintf("harness: span %s has trace flags %#x, wanted %#x", name, byte(got), byte(fl)))
+	}
 	t := r.rec.newCall()
 	r.rec.add(event{kind: evCall, t: t, op: opEnd, id: id, smp: smp})
 	sp.End()
